@@ -129,11 +129,11 @@ pub fn cbor_count_exceeds_input(b: &[u8]) -> bool {
                 pos += arg as usize;
             }
             4 | 5 => {
-                if arg > remaining {
-                    // small counts are harmless in-process (≤ 2 MiB pre-allocation): let the real
-                    // decoder see them so the byte sweep stays complete
-                    return arg > UNSAFE_COUNT;
+                if arg > remaining && arg > UNSAFE_COUNT {
+                    return true;
                 }
+                // counts ≤ 65535 are harmless in-process (≤ 2 MiB pre-allocation) even when they
+                // exceed the input: the real decoder walks on into the elements, so do we
                 pending.push(if major == 5 { arg.saturating_mul(2) } else { arg });
             }
             _ => return false,
